@@ -214,6 +214,9 @@ func init() {
 		if k := i - ctx.N(12, 90) - ctx.N(8, 32) - 40; k >= 0 && k < 9 {
 			return refSiblingCase(k)
 		}
+		if k := i - ctx.N(12, 90) - ctx.N(8, 32) - 49; k >= 0 && k < 8 {
+			return extFieldCase(k)
+		}
 		return nil
 	}
 	regSem(&semSpec{id: "C03",
@@ -233,7 +236,10 @@ func init() {
 			if i < 46 {
 				return nullableDefCase(i - 34)
 			}
-			return twin(ctx, i-46, r)
+			if i < 53 {
+				return ignoredArrayKeywordCase(i - 46)
+			}
+			return twin(ctx, i-53, r)
 		},
 		opts:    sg.Opts{MaxDepth: 3, PNullable: 0.3, PAddProps: 0.35, NullType: true, RootKinds: true, AddPropsTrue: true, W: map[string]float64{"map": 2.5}},
 		classes: docgen.Classes{"type": true, "nullok": true, "nullreq": true, "addkey": true},
@@ -260,6 +266,12 @@ func init() {
 			if i < 44 {
 				return nullableDefCase(i - 32)
 			}
+			if i < 60 {
+				return controlPatternCase(i - 44)
+			}
+			if i < 68 {
+				return extFieldCase(i - 60)
+			}
 			return nil
 		},
 		opts:    sg.Opts{MaxDepth: 2, NoFormats: true, RootKinds: true, W: map[string]float64{"string": 10, "integer": 0.5, "number": 0.5, "enum": 0.3, "ref": 2.5, "array": 1.5}, PNullable: 0.3},
@@ -273,10 +285,13 @@ func init() {
 			if i > ctx.N(24, 96) && i <= ctx.N(24, 96)+12 {
 				return nullableDefCase(i - ctx.N(24, 96) - 1)
 			}
+			if i > ctx.N(24, 96)+12 && i <= ctx.N(24, 96)+20 {
+				return extFieldCase(i - ctx.N(24, 96) - 13)
+			}
 			if i == ctx.N(24, 96) {
 				return sharedNodeWitness()
 			}
-			if i > ctx.N(24, 96) {
+			if i > ctx.N(24, 96)+20 {
 				return nil
 			}
 			return sharedNodeCase(i, r)
@@ -326,7 +341,10 @@ func init() {
 			if i < 74 {
 				return objectDefaultCase(i - 62)
 			}
-			return sameNameTwinCase(ctx, i-74, r)
+			if i < 80 {
+				return refObjectDefaultCase(i - 74)
+			}
+			return sameNameTwinCase(ctx, i-80, r)
 		},
 		values: true, defaults: true,
 		nQuick: 400, nThor: 6000, valid: 3, perSite: 3, maxDocs: 120, minDec: 2000,
@@ -1981,6 +1999,11 @@ func strataForC01(ctx *Ctx) []*sem.Case {
 		}
 	}
 	add(6, nullableBranchCase)
+	add(16, controlPatternCase)
+	add(7, ignoredArrayKeywordCase)
+	add(8, extFieldCase)
+	add(6, refObjectDefaultCase)
+	add(12, objectDefaultCase)
 	add(12, nullableDefCase)
 	add(16, nestedOverlapCase)
 	add(9, refSiblingCase)
@@ -2006,4 +2029,221 @@ func strataForC01(ctx *Ctx) []*sem.Case {
 	add(12, func(i int) *sem.Case { return sameNameTwinCase(ctx, i, rng("samename", i)) })
 	out = append(out, c19Shapes(ctx)...)
 	return out
+}
+
+// controlPatternCase: patterns that contain literal control characters and quote-like characters (a line feed, a
+// tab, CR LF, a double quote, a percent sign, a backslash escape) at required / optional / nullable / definition /
+// item positions (each is emitted at another indentation depth): the text of the pattern reaches the regexp engine
+// unchanged.
+func controlPatternCase(i int) *sem.Case {
+	pats := []struct {
+		p         string
+		good, bad []string
+	}{
+		{"^[A-Z][a-z]+\n[0-9]{5}$", []string{"Jane\n12345"}, []string{"Jane\n\t12345", "Jane\n\t\t12345", "Jane 12345", "Jane12345", "Jane\n 12345"}},
+		{"^a\tb$", []string{"a\tb"}, []string{"a b", "ab", "a\t\tb", "a\\tb"}},
+		{"^x\r\ny$", []string{"x\r\ny"}, []string{"x\ny", "x\r\n\ty", "xy"}},
+		{"^say \"hi\"$", []string{"say \"hi\""}, []string{"say hi", "say \\\"hi\\\""}},
+		{"^100%[sd]$", []string{"100%s", "100%d"}, []string{"100s", "100%!s"}},
+		{"^a\\\\b$", []string{"a\\b"}, []string{"ab", "a\\\\b"}},
+		{"^\\s+\n\\S+$", []string{"  \nxy"}, []string{"  \n\txy\n", "xy"}},
+		{"^`[a-z]+`$", []string{"`code`"}, []string{"code", "'code'"}},
+	}
+	pt := pats[i%len(pats)]
+	mk := func() *sg.Schema { return &sg.Schema{Types: []string{"string"}, Pattern: pt.p} }
+	def := mk()
+	nul := mk()
+	nul.Types = []string{"string", "null"}
+	root := &sg.Schema{Types: []string{"object"}, Defs: []sg.Prop{{Name: "Line", S: def}},
+		Props: []sg.Prop{{Name: "req", S: mk()}, {Name: "opt", S: mk()}, {Name: "nul", S: nul}, {Name: "viaDef", S: &sg.Schema{Ref: "#/$defs/Line", Target: def}},
+			{Name: "list", S: &sg.Schema{Types: []string{"array"}, Items: mk()}}, {Name: "nested", S: &sg.Schema{Types: []string{"object"}, Props: []sg.Prop{{Name: "deep", S: mk()}}}}},
+		Required: []string{"req"}}
+	c := &sem.Case{Root: root, Sig: fmt.Sprintf("control-pattern/%d", i%len(pats)), NoAuto: true}
+	if (i/len(pats))%2 == 1 {
+		c.YAML, c.RootFile = true, "root.yaml" // the schema itself written as YAML (block scalars for multi-line texts)
+	}
+	at := func(key string, v string) jsonx.Obj {
+		o := jsonx.Obj{{K: "req", V: pt.good[0]}}
+		switch key {
+		case "req":
+			o = jsonx.Obj{{K: "req", V: v}}
+		case "list":
+			o = append(o, jsonx.KV{K: "list", V: []any{pt.good[0], v}})
+		case "nested":
+			o = append(o, jsonx.KV{K: "nested", V: jsonx.Obj{{K: "deep", V: v}}})
+		default:
+			o = append(o, jsonx.KV{K: key, V: v})
+		}
+		return o
+	}
+	for _, key := range []string{"req", "opt", "nul", "viaDef", "list", "nested"} {
+		for _, g := range pt.good {
+			c.Docs = append(c.Docs, docgen.Doc{V: at(key, g), Class: "string", Label: "matching"})
+		}
+		for _, b := range pt.bad {
+			c.Docs = append(c.Docs, docgen.Doc{V: at(key, b), Class: "string", Label: "not-matching"})
+		}
+	}
+	return c
+}
+
+// ignoredArrayKeywordCase: arrays with a single typed items schema next to array keywords that do not change what
+// an element may be (additionalItems in any form - it only speaks about tuples -, uniqueItems, contains, minContains):
+// every element is still held to items, inline, nested, as a definition and through a reference.
+func ignoredArrayKeywordCase(i int) *sem.Case {
+	kws := []jsonx.Obj{
+		{{K: "additionalItems", V: true}}, {{K: "additionalItems", V: jsonx.Obj{{K: "type", V: "boolean"}}}}, {{K: "additionalItems", V: jsonx.Obj{}}}, {{K: "additionalItems", V: false}},
+		{{K: "uniqueItems", V: true}}, {{K: "contains", V: jsonx.Obj{{K: "type", V: "object"}}}, {K: "minContains", V: jsonx.N(0)}}, {{K: "additionalItems", V: jsonx.Obj{{K: "type", V: "string"}}}, {K: "uniqueItems", V: false}},
+	}
+	kw := kws[i%len(kws)]
+	arr := func(item *sg.Schema) *sg.Schema { return &sg.Schema{Types: []string{"array"}, Items: item, Extra: kw} }
+	intS := func() *sg.Schema { return &sg.Schema{Types: []string{"integer"}} }
+	strS := func() *sg.Schema { return &sg.Schema{Types: []string{"string"}} }
+	named := arr(strS())
+	cell := &sg.Schema{Types: []string{"object"}, Props: []sg.Prop{{Name: "v", S: intS()}}, Required: []string{"v"}}
+	root := &sg.Schema{Types: []string{"object"}, Defs: []sg.Prop{{Name: "Labels", S: named}, {Name: "Cell", S: cell}},
+		Props: []sg.Prop{{Name: "scores", S: arr(intS())}, {Name: "labels", S: arr(strS())}, {Name: "flags", S: arr(&sg.Schema{Types: []string{"boolean"}})}, {Name: "grid", S: arr(arr(intS()))},
+			{Name: "named", S: &sg.Schema{Ref: "#/$defs/Labels", Target: named}}, {Name: "cells", S: arr(&sg.Schema{Ref: "#/$defs/Cell", Target: cell})}, {Name: "nullable", S: func() *sg.Schema { a := arr(intS()); a.Types = []string{"array", "null"}; return a }()}}}
+	c := &sem.Case{Root: root, Sig: fmt.Sprintf("ignored-array-keyword/%d", i%len(kws)), NoAuto: true}
+	for _, d := range []struct {
+		k string
+		v any
+	}{
+		{"scores", []any{jsonx.N(1), jsonx.N(2)}}, {"scores", []any{"x"}}, {"scores", []any{jsonx.Num("1.5")}}, {"scores", []any{jsonx.N(1), jsonx.Obj{{K: "a", V: jsonx.N(1)}}}}, {"scores", []any{jsonx.N(1), true}},
+		{"labels", []any{"a", "b"}}, {"labels", []any{jsonx.N(7)}}, {"labels", []any{"a", true}}, {"labels", []any{"a", []any{}}},
+		{"flags", []any{true, false}}, {"flags", []any{"true"}}, {"flags", []any{true, jsonx.N(0)}},
+		{"grid", []any{[]any{jsonx.N(1)}, []any{}}}, {"grid", []any{[]any{"x"}}}, {"grid", []any{jsonx.N(1)}},
+		{"named", []any{"a"}}, {"named", []any{jsonx.N(1)}}, {"named", []any{"a", false}},
+		{"cells", []any{jsonx.Obj{{K: "v", V: jsonx.N(1)}}}}, {"cells", []any{jsonx.N(1)}}, {"cells", []any{jsonx.Obj{{K: "v", V: "x"}}}},
+		{"nullable", nil}, {"nullable", []any{jsonx.N(1)}}, {"nullable", []any{"x"}},
+	} {
+		c.Docs = append(c.Docs, docgen.Doc{V: jsonx.Obj{{K: d.k, V: d.v}}, Class: "typefault", Label: "element"})
+	}
+	return c
+}
+
+// extFieldCase: properties that carry a goJSONSchema extension WITHOUT a custom type (identifier only: the Go field
+// is renamed, nothing else changes) on arrays with limits, bounded numbers, constrained strings and required keys,
+// next to (odd indices) a property with a custom Go type (time.Duration) that sorts between other validated
+// properties: every rule of every other property stays in force.
+func extFieldCase(i int) *sem.Case {
+	ident := func(n string) jsonx.Obj { return jsonx.Obj{{K: "identifier", V: n}} }
+	withExt := func(s *sg.Schema, n string, on bool) *sg.Schema {
+		if on {
+			s.Ext = ident(n)
+		}
+		return s
+	}
+	on := func(bit uint) bool { return (i>>bit)&1 == 1 || i%8 == 7 }
+	inner := &sg.Schema{Types: []string{"array"}, Items: &sg.Schema{Types: []string{"integer"}}, MinItems: 1, MaxItems: 2}
+	root := &sg.Schema{Types: []string{"object"}, Required: []string{"labels", "name"}, Props: []sg.Prop{
+		{Name: "attempts", S: &sg.Schema{Types: []string{"integer"}, Min: sg.Fp(1), Max: sg.Fp(10)}},
+		{Name: "code", S: withExt(&sg.Schema{Types: []string{"string"}, MinLen: 2, MaxLen: 4}, "CodeText", on(0))},
+		{Name: "grid", S: withExt(&sg.Schema{Types: []string{"array", "null"}, Items: inner, MinItems: 1, MaxItems: 2}, "Matrix", on(1))},
+		{Name: "labels", S: withExt(&sg.Schema{Types: []string{"array"}, Items: &sg.Schema{Types: []string{"string"}}, MinItems: 2, MaxItems: 3}, "LabelList", on(1))},
+		{Name: "load", S: &sg.Schema{Types: []string{"number"}, ExMin: 0.0, Max: sg.Fp(1)}},
+		{Name: "name", S: withExt(&sg.Schema{Types: []string{"string"}, MinLen: 1}, "DisplayName", on(2))},
+		{Name: "ratio", S: withExt(&sg.Schema{Types: []string{"number"}, Max: sg.Fp(1)}, "RatioValue", on(0))},
+		{Name: "step", S: &sg.Schema{Types: []string{"integer", "null"}, MultipleOf: sg.Fp(5)}},
+		{Name: "weight", S: &sg.Schema{Types: []string{"integer"}, Max: sg.Fp(5)}},
+	}}
+	if i%2 == 1 {
+		// sorts after attempts / load / step and before weight
+		root.Props = append(root.Props, sg.Prop{Name: "timeout", S: &sg.Schema{Types: []string{"integer"}, Ext: jsonx.Obj{{K: "type", V: "time.Duration"}, {K: "imports", V: []any{"time"}}}}})
+	}
+	c := &sem.Case{Root: root, Sig: fmt.Sprintf("ext-field/%d", i%8), NoAuto: true}
+	base := jsonx.Obj{{K: "labels", V: []any{"a", "b"}}, {K: "name", V: "n"}}
+	with := func(k string, v any) jsonx.Obj {
+		o := jsonx.Obj{}
+		set := false
+		for _, kv := range base {
+			if kv.K == k {
+				o, set = append(o, jsonx.KV{K: k, V: v}), true
+			} else {
+				o = append(o, kv)
+			}
+		}
+		if !set {
+			o = append(o, jsonx.KV{K: k, V: v})
+		}
+		return o
+	}
+	ints := func(n int) []any {
+		var a []any
+		for k := 0; k < n; k++ {
+			a = append(a, jsonx.N(int64(k)))
+		}
+		return a
+	}
+	strs := func(n int) []any {
+		var a []any
+		for k := 0; k < n; k++ {
+			a = append(a, fmt.Sprintf("s%d", k))
+		}
+		return a
+	}
+	add := func(class string, o jsonx.Obj) { c.Docs = append(c.Docs, docgen.Doc{V: o, Class: class, Label: "ext-field"}) }
+	add("valid", base)
+	for _, v := range []int64{0, 1, 10, 11} {
+		add("bound", with("attempts", jsonx.N(v)))
+	}
+	for _, v := range []string{"a", "ab", "abcd", "abcde"} {
+		add("string", with("code", v))
+	}
+	for _, n := range []int{1, 2, 3, 4} {
+		add("items", with("labels", strs(n)))
+	}
+	for _, g := range [][]any{{}, {ints(1)}, {ints(1), ints(2)}, {ints(1), ints(1), ints(1)}, {ints(1), ints(0)}, {ints(3)}} {
+		add("items", with("grid", g))
+	}
+	add("nullok", with("grid", nil))
+	for _, v := range []string{"0", "0.5", "1", "1.5"} {
+		add("bound", with("load", jsonx.Num(v)))
+		add("bound", with("ratio", jsonx.Num(v)))
+	}
+	for _, v := range []int64{5, 7, 0} {
+		add("bound", with("step", jsonx.N(v)))
+	}
+	for _, v := range []int64{5, 6} {
+		add("bound", with("weight", jsonx.N(v)))
+	}
+	add("string", with("name", ""))
+	add("required", jsonx.Obj{{K: "name", V: "n"}})
+	add("required", jsonx.Obj{{K: "labels", V: []any{"a", "b"}}})
+	return c
+}
+
+// refObjectDefaultCase: a property that refers to an object definition and states a default next to the reference,
+// the definition carrying (or not) a type-level default of its own with OTHER values: absent and null take the
+// property's default, never the definition's; a second property refers to the same definition without a default.
+func refObjectDefaultCase(i int) *sem.Case {
+	limits := &sg.Schema{Types: []string{"object"}, Props: []sg.Prop{{Name: "burst", S: &sg.Schema{Types: []string{"integer"}}}, {Name: "rate", S: &sg.Schema{Types: []string{"integer"}}}}, Required: []string{"burst", "rate"}}
+	own := jsonx.Obj{{K: "burst", V: jsonx.N(10)}, {K: "rate", V: jsonx.N(100)}}
+	prop := jsonx.Obj{{K: "burst", V: jsonx.N(1)}, {K: "rate", V: jsonx.N(5)}}
+	switch i % 3 {
+	case 0:
+		limits.Default, limits.HasDefault = own, true
+	case 1:
+		limits.Default, limits.HasDefault = prop, true // the same values on both nodes
+	}
+	root := &sg.Schema{Types: []string{"object"}, Defs: []sg.Prop{{Name: "Limits", S: limits}}, Props: []sg.Prop{
+		{Name: "limits", S: &sg.Schema{Ref: "#/$defs/Limits", Target: limits, Default: prop, HasDefault: true}},
+		{Name: "name", S: &sg.Schema{Types: []string{"string"}}},
+	}}
+	if (i/3)%2 == 1 {
+		root.Props = append(root.Props, sg.Prop{Name: "other", S: &sg.Schema{Ref: "#/$defs/Limits", Target: limits, Default: jsonx.Obj{{K: "burst", V: jsonx.N(2)}, {K: "rate", V: jsonx.N(3)}}, HasDefault: true}},
+			sg.Prop{Name: "plain", S: &sg.Schema{Ref: "#/$defs/Limits", Target: limits}})
+	}
+	c := &sem.Case{Root: root, Sig: fmt.Sprintf("ref-object-default/%d", i%6), NoAuto: true}
+	given := jsonx.Obj{{K: "burst", V: jsonx.N(7)}, {K: "rate", V: jsonx.N(8)}}
+	for _, d := range []jsonx.Obj{{}, {{K: "limits", V: nil}}, {{K: "name", V: "x"}}, {{K: "limits", V: given}}, {{K: "limits", V: given}, {K: "other", V: given}, {K: "plain", V: given}}, {{K: "plain", V: given}}} {
+		ok := true
+		for _, kv := range d {
+			ok = ok && root.Prop(kv.K) != nil
+		}
+		if ok {
+			c.Docs = append(c.Docs, docgen.Doc{V: d, Class: "default", Label: "ref-object-default"})
+		}
+	}
+	return c
 }
